@@ -489,7 +489,8 @@ def split_first_line(text, style, context, max_width, justification_spacing,
         # instance) from keeping their shape when wrapped on the next line with
         # pango layout. Maybe insert Unicode shaping characters in text?
         layout.set_text(text)
-        pango.pango_layout_set_width(layout.layout, int(max_width * TO_UNITS))
+        pango.pango_layout_set_width(
+            layout.layout, int(max(0, max_width) * TO_UNITS))
         pango.pango_layout_set_wrap(layout.layout, PANGO_WRAP_MODE['WRAP_CHAR'])
         first_line, index = layout.get_first_line()
         resume_index = index or first_line.length
